@@ -15,7 +15,8 @@ ID = 'C16'
 TECHNIQUE = ('interface agreement by name and position between five descriptions of one C helper read from C, Tempita, Python and pyx sources; '
              'path enumeration of the Python block that builds the template context against the variables each template reads under its {{if}} guards; '
              'structural pairing checks on the C definition; path enumeration of the integer-index code (template expansions and the !is_slice branch) '
-             'with the index-status domain of C15')
+             'with the index-status domain of C15; expansion table of the compile-time unellipsify() over every index-kind sequence (exact abstraction of its input), '
+             'folded on model nodes and compared with NumPy\'s expansion rule')
 DECIDES = ('(SIG) prototype and definition of __pyx_memoryview_slice_memviewslice have identical parameter lists and every have_<x> flag follows the order of its <x> bound; '
            '(EXTERN) the cdef extern declaration in MemoryView.pyx has the same parameter names, order and type kinds, returns int and declares an exception value equal to the '
            'C error return; (TPL) the ToughSlice call passes as many arguments as the C function has parameters, every template variable sits at the parameter it is named after, '
@@ -27,15 +28,20 @@ DECIDES = ('(SIG) prototype and definition of __pyx_memoryview_slice_memviewslic
            'values, !is_slice branch of the helper) adds the length to negative indices before the bounds test when wraparound is on and reaches the pointer offset computation '
            'only after the bounds test when boundscheck is on, raising IndexError otherwise.'
            ' (SLICE) the start/stop normalisation of a sliced axis equals PySlice_AdjustIndices on the complete class partition of the bounds relative to the axis length '
-           '(both step signs, absent bounds, symbolic length and lengths 0..3) and the extent is 0 when stop is not in the direction of the step and (|stop-start|-1)/|step|+1 otherwise.')
-NOT_DECIDED = ('suboffset bookkeeping and the data-pointer offset of a slice, _unellipsify / ellipsis and None handling in MemoryView.pyx, '
+           '(both step signs, absent bounds, symbolic length and lengths 0..3) and the extent is 0 when stop is not in the direction of the step and (|stop-start|-1)/|step|+1 otherwise.'
+           ' (ELL) Compiler/MemoryView.unellipsify reads its indices only through is_none / is_slice / pos / the EllipsisNode class test (anything else: ANALYSIS-ERROR); for every '
+           'sequence of index kinds (Ellipsis, None, slice, integer) of length <= 4 with at most one Ellipsis that is valid for ndim 1..3, the expansion equals NumPy\'s: the Ellipsis '
+           'becomes ndim - #consuming indices full slices in its place, missing dimensions are appended, written indices keep identity and order, newaxes are the None entries, '
+           'have_slices is set whenever the expansion is not purely integer.')
+NOT_DECIDED = ('suboffset bookkeeping and the data-pointer offset of a slice, _unellipsify / ellipsis handling of the memoryview *object* in MemoryView.pyx, '
+               'compile-time unellipsify for index lists longer than 4, ndim > 3 or with several Ellipsis entries, '
                'the SimpleSlice copy semantics beyond its variable reads')
 ASSUMPTIONS = ['template variables that only occur in {{if}} conditions are two-valued for the purpose of expanding the SliceIndex template']
 
 EXEMPT = {}
 
 MUTATIONS = [
-    # (file, single edit applied on a scratch copy, rule that reported it) — all 28 variants were reported (exit 1) with a message naming the construct
+    # (file, single edit applied on a scratch copy, rule that reported it) — all variants were reported (exit 1) with a message naming the construct
     ('Cython/Utility/MemoryView_C.c', 'ToughSlice: swap {{int(have_start)}} and {{int(have_stop)}}', 'C16-TPL'),
     ('Cython/Utility/MemoryView_C.c', 'ToughSlice: drop the {{new_ndim}} argument', 'C16-TPL'),
     ('Cython/Utility/MemoryView_C.c', 'ToughSlice: {{int(have_step)}} -> {{have_step}}', 'C16-CTX'),
@@ -63,7 +69,18 @@ MUTATIONS = [
     ('Cython/Compiler/MemoryView.py', 'drop `new_ndim=new_ndim` from dict(template_vars, ...)', 'C16-CTX'),
     ('Cython/Compiler/MemoryView.py', 'drop `d[s] = "0"` in the idx.is_none branch', 'C16-CTX'),
     ('Cython/Compiler/MemoryView.py', "drop 'have_gil' from template_vars", 'C16-CTX'),
+    # second round (C16-ELL, sa/rules/sC16.py): seed C16a + single-edit variants - all reported
+    ('Cython/Compiler/MemoryView.py', 'seed C16a: unellipsify collects newaxes while looping, n_indices computed when the Ellipsis is met', 'C16-ELL newaxis-after-ellipsis'),
+    ('Cython/Compiler/MemoryView.py', 'unellipsify: `nslices = ndim - n_indices + 1` -> `ndim - n_indices`', 'C16-ELL ellipsis, newaxis-*'),
+    ('Cython/Compiler/MemoryView.py', 'unellipsify: `n_indices = len(indices)` (None counted as consuming a dimension)', 'C16-ELL newaxis-*'),
+    ('Cython/Compiler/MemoryView.py', 'unellipsify: `result_length = len(result)` (padding counts None)', 'C16-ELL no-ellipsis+newaxis'),
+    ('Cython/Compiler/MemoryView.py', 'unellipsify: trailing padding prepended (`result[0:0] = ...`)', 'C16-ELL no-ellipsis'),
+    ('Cython/Compiler/MemoryView.py', 'unellipsify: `or index.is_none` dropped from have_slices', 'C16-ELL no-ellipsis+newaxis:have_slices'),
+    ('Cython/Compiler/MemoryView.py', 'unellipsify: newaxes collected from indices[1:]', 'C16-ELL *:newaxes, no-ellipsis+newaxis'),
+    ('Cython/Compiler/MemoryView.py', 'unellipsify: Ellipsis expands to max(nslices, 1) slices', 'C16-ELL ellipsis'),
     # behaviour preserving, all silent (exit 0)
+    ('Cython/Compiler/MemoryView.py', '(second round) unellipsify: comprehension -> loop, n_indices renamed and computed as sum(...), `ndim - (consuming - 1)`', None),
+    ('Cython/Compiler/MemoryView.py', '(second round) unellipsify: if/else on seen_ellipsis -> `if not seen_ellipsis: ...; continue`, extend -> +=', None),
     ('Cython/Compiler/MemoryView.py', 'reorder template_vars entries; rename d -> tctx', None),
     ('Cython/Compiler/MemoryView.py', 'replace the for s in ("start","stop","step") loop by three explicit if/else blocks (one using d.update)', None),
     ('Cython/Utility/MemoryView_C.c', 'ToughSlice: join the argument lines; definition: have_stop block before have_start block; rename negative_step', None),
@@ -678,5 +695,6 @@ def rule_index(ctx, M):
 
 def run(ctx):
     M = Model(ctx)
-    from ..rules import slicenorm
-    return [rule_sig(ctx, M), rule_extern(ctx, M), rule_tpl(ctx, M), rule_ctx(ctx, M), rule_calls(ctx, M), rule_def(ctx, M), rule_index(ctx, M), slicenorm.rule_slice(ctx)]
+    from ..rules import slicenorm, sC16
+    return [rule_sig(ctx, M), rule_extern(ctx, M), rule_tpl(ctx, M), rule_ctx(ctx, M), rule_calls(ctx, M), rule_def(ctx, M), rule_index(ctx, M), slicenorm.rule_slice(ctx),
+            sC16.rule_ellipsis(ctx)]
